@@ -38,26 +38,35 @@ theorem keeps_calc (p : Party) (a b : Nat) : Keeps p (p.calcDataKeys a b).1 := b
       · exact ⟨rfl, fun h => slotInv_set i _ h hmiss⟩
       · exact ⟨rfl, fun h => slotInv_release i h⟩
 
+theorem myKeyFor_last (p : Party) : ∃ m, p.myKeyFor (pred32 p.myKeyId) = some m := by
+  unfold Party.myKeyFor
+  by_cases h : pred32 p.myKeyId = p.myKeyId
+  · exact ⟨_, if_pos h⟩
+  · refine ⟨p.myLast, ?_⟩
+    rw [if_neg h, if_pos rfl]
+
+theorem theirKeyFor_cur (p : Party) : p.theirKeyFor p.theirKeyId = some p.theirCur := by
+  unfold Party.theirKeyFor
+  rw [if_pos rfl]
+
 /-- **the sending pair is always served** (pigeonhole): `calcDataKeys(myKeyId-1, theirKeyId)` cannot fail -/
 theorem calc_send_some (p : Party) (h : SlotInv p.slots) :
     (p.calcDataKeys (pred32 p.myKeyId) p.theirKeyId).2 ≠ none := by
+  obtain ⟨m, hm⟩ := myKeyFor_last p
+  have ht := theirKeyFor_cur p
   unfold Party.calcDataKeys
   cases hhit : findSlot p.slots
       (fun s => s.used && s.theirKeyId == p.theirKeyId && s.myKeyId == pred32 p.myKeyId) with
-  | some i => simp only; exact Option.some_ne_none i
+  | some i => exact Option.some_ne_none i
   | none =>
-    simp only
     have hmiss := miss_not_mem p.slots _ _ hhit
     have hw : inWin p.myKeyId (pred32 p.myKeyId) p.theirKeyId (pred32 p.theirKeyId)
         (pred32 p.myKeyId, p.theirKeyId) := ⟨Or.inr rfl, Or.inl rfl⟩
     cases hp : p.pickSlot with
     | none => exact absurd hp (pickSlot_some p h _ _ hw hmiss)
     | some i =>
-      -- (keep `pred32` opaque: deciding equalities about `(n + 4294967295) % 4294967296` must not unfold it)
-      generalize pred32 p.myKeyId = m'
-      by_cases hm : m' = p.myKeyId
-      · simp only [hm, if_true]; exact Option.some_ne_none i
-      · simp only [hm, if_false, if_true]; exact Option.some_ne_none i
+      rw [hm, ht]
+      exact Option.some_ne_none i
 
 theorem genData_ok (p : Party) (text : Bytes) (extra : Option STlv) (h : SlotInv p.slots) :
     ∃ q m, p.genData text extra = .ok (q, m) ∧ Keeps p q := by
@@ -70,5 +79,98 @@ theorem genData_ok (p : Party) (text : Bytes) (extra : Option STlv) (h : SlotInv
     cases oi with
     | none => exact absurd rfl hs
     | some i => exact ⟨_, _, rfl, ⟨hk.view, hk.slots⟩⟩
+
+theorem keeps_procSMP (p : Party) (t : SmpIn) : Keeps p (p.procSMP t).1 := by
+  fun_cases Party.procSMP p t <;> first
+    | exact ⟨rfl, id⟩
+    | (simp only [Party.newId, Prod.mk.injEq] at *
+       rename_i h
+       obtain ⟨rfl, rfl⟩ := h
+       exact ⟨rfl, id⟩)
+
+/-- the `EachTLV` loop returns (its only panic is `generateData`'s) and keeps the invariants -/
+theorem tlvLoop_ok (ts : List RTlv) : ∀ (p : Party) (o : Out), SlotInv p.slots →
+    ∃ q o', p.tlvLoop o ts = .ok (q, o') ∧ Keeps p q := by
+  induction ts with
+  | nil => intro p o _; exact ⟨p, o, rfl, Keeps.refl p⟩
+  | cons t ts ih =>
+    intro p o hs
+    cases t with
+    | other => simpa [Party.tlvLoop] using ih p o hs
+    | disconnect => exact ⟨_, _, rfl, ⟨rfl, id⟩⟩
+    | smp t =>
+      have hk := keeps_procSMP p t
+      unfold Party.tlvLoop
+      cases hr : p.procSMP t with
+      | mk p1 r =>
+        rw [hr] at hk
+        simp only
+        split
+        · exact ⟨_, _, rfl, ⟨hk.view, hk.slots⟩⟩
+        · cases hrep : r.reply with
+          | none => exact ⟨_, _, rfl, hk⟩
+          | some rep =>
+            simp only
+            obtain ⟨q, m, hg, hkq⟩ := genData_ok p1 [] (some rep) (hk.slots hs)
+            rw [hg]
+            exact ⟨_, _, rfl, hk.trans hkq⟩
+
+theorem keeps_storeCtr (p : Party) (i : Nat) (c : Bytes) : Keeps p (p.storeCtr i c) :=
+  ⟨rfl, fun h => ⟨by simpa [Party.storeCtr] using h.1, by
+    show (usedKeys (p.slots.set i { p.slots.getD i {} with lastCtr := c })).Nodup
+    rw [usedKeys_set_ctr]; exact h.2⟩⟩
+
+theorem keeps_rotateMine (p : Party) (rkid : Nat) : Keeps p (p.rotateMine rkid) := by
+  unfold Party.rotateMine
+  split
+  · exact keeps_rotate p
+  · exact Keeps.refl p
+
+theorem keeps_rotateTheirs (p : Party) (skid : Nat) (next : Id) : Keeps p (p.rotateTheirs skid next) := by
+  unfold Party.rotateTheirs
+  split
+  · exact ⟨rfl, fun h => slotInv_evict _ h⟩
+  · exact Keeps.refl p
+
+theorem deliver_ok (p : Party) (d : DataMsg) (hs : SlotInv p.slots) :
+    ∃ q o, p.deliver d = .ok (q, o) ∧ Keeps p q := by
+  unfold Party.deliver
+  split <;> exact tlvLoop_ok _ p _ hs
+
+/-- everything `processData` does after the MAC check returns and keeps the invariants -/
+theorem acceptData_ok (p : Party) (i : Nat) (d : DataMsg) (hs : SlotInv p.slots) :
+    ∃ q o, p.acceptData i d = .ok (q, o) ∧ Keeps p q := by
+  unfold Party.acceptData
+  split
+  · exact ⟨_, _, rfl, Keeps.refl p⟩
+  · have k := ((keeps_storeCtr p i d.ctr).trans (keeps_rotateMine _ d.rkid)).trans
+      (keeps_rotateTheirs _ d.skid d.next)
+    obtain ⟨q, o, h, hk⟩ := deliver_ok _ d (k.slots hs)
+    exact ⟨q, o, h, k.trans hk⟩
+
+/-- **Receive on a data message** returns and keeps the invariants, whatever the message -/
+theorem recv_data_ok (p : Party) (ok ign : Bool) (skid rkid : Nat) (g : Option DataMsg) (hs : SlotInv p.slots) :
+    ∃ q o, p.recv (.data ok ign skid rkid g) = .ok (q, o) ∧ Keeps p q := by
+  simp only [Party.recv]
+  split
+  · exact ⟨_, _, rfl, Keeps.refl p⟩
+  split
+  · exact ⟨_, _, rfl, Keeps.refl p⟩
+  have hk := keeps_calc p rkid skid
+  cases hc : p.calcDataKeys rkid skid with
+  | mk p1 oi =>
+    rw [hc] at hk
+    cases oi with
+    | none => exact ⟨_, _, rfl, hk⟩
+    | some i =>
+      simp only
+      cases g with
+      | none => exact ⟨_, _, rfl, hk⟩
+      | some d =>
+        simp only
+        split
+        · obtain ⟨q, o, h, hkq⟩ := acceptData_ok p1 i d (hk.slots hs)
+          exact ⟨q, o, h, hk.trans hkq⟩
+        · exact ⟨_, _, rfl, hk⟩
 
 end XC.C47
